@@ -2,7 +2,7 @@
 
 State explored = the hidden process state a seeded call could depend on: the global key
 counter of the unseeded path, the handler stack, the staging caches.
-For each of 9 program shapes (flat, sample_shape site, nested scan, cond, vmapped call,
+For each of 10 program shapes (flat, sample_shape site, nested scan, cond, vmapped call,
 keyword arguments, gen-fn simulate with combinators, gen-fn called directly, ADEV estimate):
  * baseline r0 = seed(f)(key, *args) and its list of site keys (monitor mode);
  * ALL interference histories up to length 2 (quick) / 3 (thorough) over the alphabet
@@ -91,8 +91,22 @@ def _programs():
     def adev(theta):
         return obj.estimate(theta), obj.grad_estimate(theta)
 
+    @jax.custom_jvp
+    def noisy_gate(x):
+        return x + normal.sample(0.0, 1.0)
+
+    @noisy_gate.defjvp
+    def _noisy_gate_jvp(p, t):
+        return noisy_gate(p[0]), t[0]
+
+    def custom_jvp_site(a):
+        # a construct seed does not interpret: it must either be refused with the dedicated error
+        # (then the shape is outside the claim) or behave as a pure function of the key
+        return noisy_gate(a) * 2.0
+
     f32 = np.float32
     return {
+        "custom_jvp_site": (custom_jvp_site, (f32(0.3),), {}),
         "flat": (flat, (f32(0.3),), {}),
         "shaped": (shaped, (f32(0.3),), {}),
         "nested_scan": (nested_scan, (f32(0.3),), {}),
@@ -226,6 +240,16 @@ def work(item, tier, seed):
         r0 = call_eager()
     except Exception as ex:
         handler_stack.clear()
+        from genjax.pjax import LoweringSamplePrimitiveToMLIRException
+
+        if isinstance(ex, LoweringSamplePrimitiveToMLIRException):
+            # seed refuses this program with the dedicated error: not among the functions the
+            # seed interpreter accepts, nothing to compare
+            res.states += 1
+            res.transitions += 1
+            res.notes["programs_refused_by_seed"] = [pname]
+            res.add_sample({"program": pname, "outcome": "refused by seed with the dedicated lowering error"})
+            return res
         res.violate(PROP, f"seeded-call-raises:{pname}", error=f"{type(ex).__name__}: {str(ex)[:300]}")
         return res
     r0b = call_eager()
@@ -399,7 +423,7 @@ def _cmp_transform(res, pname, cname, a, b, i):
 def items(tier):
     its = []
     n_ops = 9
-    for p in ("flat", "shaped", "nested_scan", "cond", "vmapped", "kwargs", "gf_simulate", "gf_call", "adev"):
+    for p in ("custom_jvp_site", "flat", "shaped", "nested_scan", "cond", "vmapped", "kwargs", "gf_simulate", "gf_call", "adev"):
         its.append((p, "transforms"))
         for f in range(n_ops):
             its.append((p, str(f)))
@@ -414,7 +438,7 @@ def main(tier, seed):
         its = [it for it in its if only in str(it)]
     res, errors = H.fan_out("checks.c06", "work", its, tier, seed)
     rule = (
-        "9 program shapes x (all interference histories of length <=2 quick / <=3 thorough over a 9-call alphabet, the seeded call re-run and "
+        "10 program shapes x (all interference histories of length <=2 quick / <=3 thorough over a 9-call alphabet, the seeded call re-run and "
         "compared bit for bit after every step) + (eager / jit / vmap-over-keys / jit(vmap) on 3 keys) + (32/64 distinct keys); states = seeded "
         "results compared, transitions = real calls"
     )
